@@ -198,12 +198,18 @@ func c20Serve(c *Ctx) {
 		grp := c.XO.Of(cc.Args[0])
 		gb, gidx := stripExtract(grp)
 		okGrp := gidx == 0 && gb.Op == an.OpCall && gb.Fn != nil && gb.Fn.String() == "golang.org/x/sync/errgroup.WithContext"
-		mc, isClosure := cc.Args[1].(*ssa.MakeClosure)
+		// the task function: a closure, a method value, or the closure a factory returns (built with the
+		// task and the context as parameters); it is enumerated with its captured variables bound
+		ae := c.XO.Of(cc.Args[1])
+		isClosure := ae.Op == an.OpClosure && ae.Fn != nil
 		okRun := false
-		fact := "not a closure"
+		fact := "not a closure: " + ae.String()
 		if isClosure {
-			cl := mc.Fn.(*ssa.Function)
-			ps := c.pathsO("R-C20-2", cl, an.PathOpts{})
+			cl := ae.Fn
+			ps, err := c.XO.PathsBoundFV(cl, nil, ae.Args, an.PathOpts{InlinePaths: c.helperInline(cl)})
+			if err != nil {
+				c.R.Undecided("R-C20-2", "paths:"+c.fname(cl), c.fname(cl), c.pos(cl.Pos()), err.Error())
+			}
 			okRun = len(ps) > 0
 			for _, p := range ps {
 				runs := callsOnPath(p, func(cc *ssa.CallCommon) bool { return an.CallIs(cc, PkgCorerad, "Task", "Run") })
